@@ -90,10 +90,11 @@ class Manager:
     def put(self, state, facade=True, spa=True, connected=True, descriptors=True):
         self.facade = self.make_facade() if facade else None
         self.spa = self.make_spa(connected) if spa else None
-        self.obj.attrs["_spa_state"] = self.member(STATE, state)
-        self.obj.attrs["_facade"] = self.facade
-        self.obj.attrs["_spa"] = self.spa
-        self.obj.attrs["_spa_descriptors"] = [Opaque("descriptor")] if descriptors else None
+        # through the interpreter's attribute store: a backing attribute behind a property setter is reached too
+        self.it.setattr(self.obj, "_spa_state", self.member(STATE, state))
+        self.it.setattr(self.obj, "_facade", self.facade)
+        self.it.setattr(self.obj, "_spa", self.spa)
+        self.it.setattr(self.obj, "_spa_descriptors", [Opaque("descriptor")] if descriptors else None)
         self.calls.clear()
         self.log.clear()
         return self
